@@ -4,7 +4,7 @@ import re
 
 from .engine import dotted, iter_stmts, norm, walk_expr, const_str, kw
 
-MASK_DROPPERS = ('asarray', 'array', 'ascontiguousarray')
+MASK_DROPPERS = ('asarray', 'array', 'ascontiguousarray', 'resize', 'append', 'insert', 'delete', 'pad', 'broadcast_to')   # np.<f>(masked) returns data without its mask (calibrated)
 
 
 def drops_mask(e):
@@ -95,6 +95,14 @@ def truthy_optional_guards(fn, names):
                 assigns = [s for s in st.body if isinstance(s, ast.Assign) and isinstance(s.targets[0], ast.Name) and s.targets[0].id == core.id]
                 if neg and assigns:
                     out.append(st)
+        # x = x or <default>   /   x = x if x else <default>
+        if isinstance(st, ast.Assign) and len(st.targets) == 1 and isinstance(st.targets[0], ast.Name) and st.targets[0].id in names:
+            v = st.value
+            nm = st.targets[0].id
+            if isinstance(v, ast.BoolOp) and isinstance(v.op, ast.Or) and isinstance(v.values[0], ast.Name) and v.values[0].id == nm:
+                out.append(st)
+            if isinstance(v, ast.IfExp) and isinstance(v.test, ast.Name) and v.test.id == nm:
+                out.append(st)
     return out
 
 
@@ -279,10 +287,15 @@ def reinterpret_input(fn, input_params):
     # a name is raw only if *every* binding of it is raw (a re-binding through astype ends it) - except the self re-binding under test
     for st in iter_stmts(fn.body):
         if isinstance(st, ast.Assign) and len(st.targets) == 1 and isinstance(st.targets[0], ast.Name) and st.targets[0].id in raw and not is_raw(st.value):
-            is_view = isinstance(st.value, ast.Call) and isinstance(st.value.func, ast.Attribute) and st.value.func.attr == 'view'
+            is_view = isinstance(st.value, ast.Call) and isinstance(st.value.func, ast.Attribute) and st.value.func.attr in ('view', 'astype')
             if not is_view and st.targets[0].id not in input_params:
                 raw.discard(st.targets[0].id)
     for n in ast.walk(fn):
+        # astype to a dtype derived from the input's own dtype keeps its item size: not a conversion to the record's 4-byte type
+        if isinstance(n, ast.Call) and isinstance(n.func, ast.Attribute) and n.func.attr == 'astype' and n.args and is_raw(n.func.value):
+            a0 = n.args[0]
+            if any(isinstance(x, ast.Attribute) and x.attr in ('dtype', 'newbyteorder') for x in ast.walk(a0)):
+                out.append((n, norm(n.func.value)))
         if isinstance(n, ast.Call) and isinstance(n.func, ast.Attribute) and n.func.attr == 'view' and (n.args or n.keywords):
             a = n.args[0] if n.args else None
             if a is None or dotted(a) in _CLASS_VIEWS or any(k.arg == 'type' for k in n.keywords):
@@ -317,4 +330,85 @@ def collapsed_elementwise_choice(fn):
                      and any(isinstance(n, ast.Name) and n.id == x for n in ast.walk(s2.value)))]
         if updates(st.body) and updates(st.orelse) and norm(updates(st.body)[0]) != norm(updates(st.orelse)[0]):
             out.append((st, x, red))
+    return out
+
+
+_DT64_RANK = {'as': 0, 'fs': 1, 'ps': 2, 'ns': 3, 'us': 4, 'ms': 5, 's': 6, 'm': 7, 'h': 8, 'D': 9, 'W': 10, 'M': 11, 'Y': 12}
+_RES_NEED = {'microsecond': 'us', 'second': 's', 'minute': 'm', 'hour': 'h', 'day': 'D', 'month': 'D', 'year': 'D'}
+
+
+def resolution_table(fn, resname='minres', unitname='tu'):
+    """if-chain translating the finest non-zero datetime field into a numpy datetime64 unit: the unit may not be coarser than the field.
+    -> ('ok', n) | ('wrong', stmt, field, unit, needed) | ('unknown', why)"""
+    from . import consteval
+    chain = None
+    for st in iter_stmts(fn.body):
+        if isinstance(st, ast.If) and isinstance(st.test, ast.Compare) and norm(st.test.left) == resname \
+                and not (isinstance(getattr(st, '_parent', None), ast.If) and st in getattr(st, '_parent').orelse):
+            chain = st
+            break
+    if chain is None:
+        return ('unknown', 'no if-chain on %s' % resname)
+    n = 0
+    for field, need in _RES_NEED.items():
+        env = consteval.run_block([chain], {resname: field}, want_env=True)
+        if env is consteval.UNK or env.get(unitname, consteval.UNK) is consteval.UNK:
+            return ('unknown', 'chain outside the evaluated fragment for %s' % field)
+        m = re.match(r"^datetime64\[(\w+)\]$", str(env[unitname]))
+        if not m or m.group(1) not in _DT64_RANK:
+            return ('unknown', 'unit %r not understood' % (env[unitname],))
+        n += 1
+        if _DT64_RANK[m.group(1)] > _DT64_RANK[need]:
+            # the statement that assigns this unit
+            return ('wrong', chain, field, m.group(1), need)
+    return ('ok', n)
+
+
+def mutated_mutable_defaults(fn):
+    """parameters whose default is a mutable literal ({} / [] / set() / dict() / list()) and that are mutated in the body
+    (method call that changes the container, subscript store, augmented assignment): state leaks from call to call.
+    -> [(param name, default node, mutating stmt)]"""
+    out = []
+    args = fn.args
+    pos = args.posonlyargs + args.args
+    pairs = list(zip(pos[len(pos) - len(args.defaults):], args.defaults)) + [(a, d) for a, d in zip(args.kwonlyargs, args.kw_defaults) if d is not None]
+    for a, d in pairs:
+        mutable = isinstance(d, (ast.Dict, ast.List, ast.Set)) or (isinstance(d, ast.Call) and dotted(d.func) in ('dict', 'list', 'set', 'OrderedDict') and not d.args and not d.keywords)
+        if not mutable:
+            continue
+        rebound = False
+        for st in iter_stmts(fn.body):
+            if isinstance(st, ast.Assign) and any(isinstance(t, ast.Name) and t.id == a.arg for t in st.targets):
+                rebound = True       # a re-binding before the mutation (x = dict(x)) protects the default
+            if rebound:
+                continue
+            hit = None
+            if isinstance(st, ast.Expr) and isinstance(st.value, ast.Call) and isinstance(st.value.func, ast.Attribute) and isinstance(st.value.func.value, ast.Name) \
+                    and st.value.func.value.id == a.arg and st.value.func.attr in ('update', 'append', 'extend', 'insert', 'setdefault', 'pop', 'clear', 'add', 'remove', 'popitem'):
+                hit = st
+            if isinstance(st, (ast.Assign, ast.AugAssign)):
+                for t in (st.targets if isinstance(st, ast.Assign) else [st.target]):
+                    if isinstance(t, ast.Subscript) and isinstance(t.value, ast.Name) and t.value.id == a.arg:
+                        hit = st
+                    if isinstance(st, ast.AugAssign) and isinstance(t, ast.Name) and t.id == a.arg:
+                        hit = st
+            if hit is not None:
+                # the leak is observable only if the function also *reads* the container (its behaviour then depends on what an earlier call left
+                # there); a container that is only (re)filled key by key and returned behaves the same on every call
+                reads = False
+                for n in ast.walk(fn):
+                    if isinstance(n, ast.Name) and n.id == a.arg and isinstance(n.ctx, ast.Load):
+                        par = getattr(n, '_parent', None)
+                        if isinstance(par, ast.Subscript) and isinstance(par.ctx, (ast.Store, ast.Del)):
+                            continue
+                        if isinstance(par, ast.Return):
+                            continue
+                        if isinstance(par, ast.Attribute) and isinstance(getattr(par, '_parent', None), ast.Call) and par.attr in ('update', 'append', 'extend', 'insert', 'setdefault', 'add'):
+                            if par.attr in ('append', 'extend', 'insert', 'add'):
+                                reads = True      # accumulates: the returned/used container grows from call to call
+                            continue
+                        reads = True
+                if reads:
+                    out.append((a.arg, d, hit))
+                break
     return out
